@@ -5,6 +5,7 @@
 -/
 import Mqtt.VarInt
 import Mqtt.Pid
+import Mqtt.Topic
 
 namespace Mqtt.Driver
 open Mqtt
@@ -36,6 +37,33 @@ def opPid (p u : Nat) : String :=
     let u16 := UInt16.ofNat u
     s!"try=ok add={showPidRes (pid.add u16)} sub={showPidRes (pid.sub u16)} addassign={showPidRes (pid.addAssign u16)} subassign={showPidRes (pid.subAssign u16)} value={pid.val.toNat}"
 
+def b01 (b : Bool) : String := if b then "1" else "0"
+
+def showOptBytes : Except String (Option Bytes) → String
+  | .ok none => "~"
+  | .ok (some b) => hexOrDash b
+  | .error e => s!"panic[{e}]"
+
+def opTf (debug : Bool) (bs : Bytes) : String :=
+  match Utf8.decode bs with
+  | none => "notutf8"
+  | some cs =>
+    match Topic.filterIsInvalid debug cs with
+    | .panic s => s!"panic[{s}]"
+    | .invalid => "inv=1 sep=0"
+    | .valid sep =>
+      let f : Topic.TopicFilter := ⟨bs, sep⟩
+      s!"inv=0 sep={sep} shared={b01 f.isShared} group={showOptBytes f.sharedGroupName} filter={showOptBytes f.sharedFilter} sys={b01 (Topic.nameIsSys cs)}"
+
+def opTn (bs : Bytes) : String :=
+  match Utf8.decode bs with
+  | none => "notutf8"
+  | some cs =>
+    if Topic.nameIsInvalid cs then "inv=1"
+    else s!"inv=0 shared={b01 (Topic.nameIsShared cs)} sys={b01 (Topic.nameIsSys cs)}"
+
+def opUtf8 (bs : Bytes) : String := s!"valid={b01 (Utf8.valid bs)}"
+
 def step (line : String) : String :=
   match line.trimAscii.toString.splitOn " " with
   | ["vi", n] => match n.toNat? with
@@ -47,6 +75,18 @@ def step (line : String) : String :=
   | ["pid", p, u] => match p.toNat?, u.toNat? with
     | some a, some b => opPid a b
     | _, _ => "bad-op"
+  | ["tf", h] => match bytesOfHex h with
+    | some bs => opTf false bs
+    | none => "bad-op"
+  | ["tfd", h] => match bytesOfHex h with
+    | some bs => opTf true bs
+    | none => "bad-op"
+  | ["tn", h] => match bytesOfHex h with
+    | some bs => opTn bs
+    | none => "bad-op"
+  | ["utf8", h] => match bytesOfHex h with
+    | some bs => opUtf8 bs
+    | none => "bad-op"
   | _ => "bad-op"
 
 end Mqtt.Driver
